@@ -215,13 +215,14 @@ class ActionsFamily:
                   'models': [json.dumps(wf)], 'responder': {'mode': 'quiescent', 'rules': [{'match': {'uses': IRQ}, 'action': 'next', 'times': 100}]}, 'ops': ops}
             return {'scenarios': [sc], 'meta': {'wf': wf, 'kind': 'branches', 'sub': 'b2b'}, 'digest': digest([wf, ops]), 'nontrivial': True}
         n = rng.randint(1, 3)
-        wf = {'id': 'm1', 'steps': [{'id': 's1', 'acts': [irq(f'a{i}', f'k{i}') for i in range(1, n + 1)]}, {'id': 's2', 'acts': [irq('a4', 'k4')]}, {'id': 's3', 'acts': [{'id': 'a5', 'uses': MSG, 'key': 'm5'}]}]}
+        outs = rng.random() < 0.5          # the acts hand declared outputs to the step, which stays open while a pushed act is
+        wf = {'id': 'm1', 'steps': [{'id': 's1', 'acts': [irq(f'a{i}', f'k{i}', outputs={f'o{i}': None}) if outs else irq(f'a{i}', f'k{i}') for i in range(1, n + 1)]}, {'id': 's2', 'acts': [irq('a4', 'k4')]}, {'id': 's3', 'acts': [{'id': 'a5', 'uses': MSG, 'key': 'm5'}]}]}
         ops = [{'op': 'start', 'mid': 'm1', 'vars': {'pid': 'p1'}}, {'op': 'quiesce'}]
         pushed = rng.randint(1, 2)
         for j in range(pushed):
             ops += [{'op': 'act', 'target': {'pid': 'p1', 'kind': 'step', 'state': 'running', 'occ': 0}, 'action': 'push', 'options': {'uses': IRQ, 'key': f'kpush{j}', 'id': f'apush{j}'}}, {'op': 'quiesce'}]
         for i in range(1, n):
-            ops += [{'op': 'act', 'target': {'pid': 'p1', 'key': f'k{i}', 'state': 'interrupted'}, 'action': rng.choice(['next', 'next', 'skip', 'submit']), 'options': {}}, {'op': 'quiesce'}]
+            ops += [{'op': 'act', 'target': {'pid': 'p1', 'key': f'k{i}', 'state': 'interrupted'}, 'action': rng.choice(['next', 'next', 'skip', 'submit']), 'options': {f'o{i}': 10 + i} if outs else {}}, {'op': 'quiesce'}, {'op': 'snapshot', 'level': 'rows'}]
         # the acts that are open now (the last declared one and the pushed ones) are closed back to back in any order
         keys = [f'k{n}'] + [f'kpush{j}' for j in range(pushed)]
         if rng.random() < 0.5:
@@ -233,7 +234,10 @@ class ActionsFamily:
                 action = rng.choice(['skip', 'skip', 'next', 'next', 'remove', 'submit', 'submit', 'error', 'abort', 'back', 'cancel'])
             else:
                 action = rng.choice(['skip', 'skip', 'skip', 'skip', 'next', 'next', 'remove', 'submit', 'error', 'abort', 'back', 'cancel'])
-            ops.append({'op': 'act', 'target': {'pid': 'p1', 'key': key, 'state': 'interrupted'}, 'action': action, 'options': options_for(rng, action, wf, 0.9)})
+            o_ = options_for(rng, action, wf, 0.9)
+            if outs and key == f'k{n}':
+                o_ = dict(o_, **{f'o{n}': 10 + n})
+            ops.append({'op': 'act', 'target': {'pid': 'p1', 'key': key, 'state': 'interrupted'}, 'action': action, 'options': o_})
             if rng.random() < 0.3:
                 ops.append({'op': 'yield', 'n': rng.randint(1, 6)})
         ops += [{'op': 'quiesce'}, {'op': 'snapshot', 'level': 'rows'}, {'op': 'run'}, {'op': 'snapshot', 'level': 'rows'}, {'op': 'probe_acts', 'pid': 'p1', 'evict': True}, {'op': 'quiesce'}]
